@@ -13,7 +13,7 @@ def validate(ctx, module, trace_path, cfg=None, timeout=900, workers=1, extra_fi
     """Returns (accepted, consumed, total, TLCResult). Raises Infra if TLC itself failed to run."""
     files = [("trace.ndjson", open(trace_path).read())] + list(extra_files)
     r = ctx.tlc(module, cfg=cfg, workers=workers, timeout=timeout, files=files, env_extra=env_extra,
-                heap=heap)
+                heap=heap, stack="512m")
     text = r.stdout or ""
     m = None
     for m in _CONS.finditer(text):
